@@ -887,13 +887,15 @@ impl Storage {
 
                 self.db
                     .iterator(mode)
+                    .take_while(|(key, _value)| key.starts_with(&key_prefix))
+                    // rows of a script whose args continue this script's args share the prefix
+                    .filter(|(key, _value)| key.len() == key_prefix_len + 17)
                     .take_while(|(key, _value)| {
-                        key.starts_with(&key_prefix)
-                            && BlockNumber::from_be_bytes(
-                                key[key_prefix_len..key_prefix_len + 8]
-                                    .try_into()
-                                    .expect("stored BlockNumber"),
-                            ) >= to_number
+                        BlockNumber::from_be_bytes(
+                            key[key_prefix_len..key_prefix_len + 8]
+                                .try_into()
+                                .expect("stored BlockNumber"),
+                        ) >= to_number
                     })
                     .for_each(|(key, value)| {
                         let block_number = BlockNumber::from_be_bytes(
